@@ -255,6 +255,71 @@ def font_cases(rng, tier):
         yield Case("typed_roundtrip", fields_line("Font", d, []), check=check_font(d), model=False, tags=tags)
 
 
+# ---------------------------------------------------------------------------------------------- Encoding (hand-written pair, no Coq model)
+# added after the mutation sweep (mutation/REPORT.md, survivor #0049 and seeded/C15c): the harness could dispatch "Encoding"
+# but no case ever named it.  Spec side: ISO 32000-1 Table 114 — /Differences `code name name … code name …` assigns
+# consecutive codes from each integer on; the written form must denote the same base encoding and the same code -> name map.
+
+BASE_ENCODINGS = ["StandardEncoding", "SymbolEncoding", "MacRomanEncoding", "WinAnsiEncoding", "MacExpertEncoding", "Identity-H"]
+
+
+def enc_denotation(p):
+    if isinstance(p, Name):
+        return p.s, {}
+    m, code = {}, 0
+    for x in p.get("Differences") or []:
+        if isinstance(x, Name):
+            m[code] = x.s
+            code += 1
+        else:
+            code = int(x)
+    b = p.get("BaseEncoding")
+    return (b.s if isinstance(b, Name) else None), m
+
+
+def check_encoding(v):
+    want = enc_denotation(v)
+
+    def chk(r):
+        if r[0] != "OK":
+            return "%s %s" % (r[0], r[1])
+        f = r[1]
+        if f[0] != b"ok" or len(f) < 6 or f[3] != b"ok":
+            return "round trip failed: " + b" ".join(f[:5]).decode("latin-1")
+        if f[1] != f[4]:
+            return "second write differs"
+        got = enc_denotation(T.uncanon(f[1]))
+        if got[1] != want[1]:
+            return "code -> glyph name map changed: %r -> %r" % (want[1], got[1])
+        if want[0] is not None and got[0] != want[0]:
+            return "base encoding changed: %r -> %r" % (want[0], got[0])
+        return None
+    return chk
+
+
+def encoding_cases(rng, tier):
+    glyphs = ["A", "Aacute", "bullet", "dotlessi", "caron", "ring", "space", "Euro", "f_i", "g123"]
+    for i in range(40 if tier == "quick" else 600):
+        if i % 5 == 0:
+            v = Name(rng.choice(BASE_ENCODINGS))
+        else:
+            v = {}
+            if rng.random() < 0.7:
+                v["BaseEncoding"] = Name(rng.choice(BASE_ENCODINGS))
+            arr, code = [], rng.choice([0, 1, 1, 32, 65, 128])
+            for _ in range(rng.randrange(0 if i % 5 == 1 else 1, 4)):        # runs in ascending order, gaps of 0..n between them
+                arr.append(code)
+                for _ in range(rng.randrange(1, 4)):
+                    arr.append(Name(rng.choice(glyphs)))
+                    code += 1
+                code += rng.choice([0, 1, 2, 40])
+                if code > 250:
+                    break
+            v["Differences"] = arr
+        yield Case("typed_roundtrip", fields_line("Encoding", v, []), check=check_encoding(v), model=False,
+                   tags=["hand:Encoding", "differences:%d" % (0 if isinstance(v, Name) else len(enc_denotation(v)[1]))])
+
+
 # ---------------------------------------------------------------------------------------------- containers on their own
 
 def container_value(rng, name, G):
@@ -382,6 +447,7 @@ def generate(rng, tier):
     yield from container_cases(rng, tier)
     yield from stream_cases(rng, tier)
     yield from font_cases(rng, tier)
+    yield from encoding_cases(rng, tier)
     for _ in range(40 if tier == "quick" else 600):          # explicit destinations: outside the Coq model
         G = T.Gen(S(), rng)
         v = G.action(dests=True)
@@ -428,6 +494,8 @@ def witness_case(f, c):
             c.check, c.model = check_stream(v, name != "Stream<()>"), False
             if f["id"] == "C15-g":
                 c.tags.add("class:stream-file")
+        elif name == "Encoding":
+            c.check, c.model = check_encoding(v), False
         elif name == "Font":
             c.check, c.model = check_font(v), False
             c.tags.add("class:font-other")
